@@ -464,6 +464,7 @@ func checkC09(c *Ctx, r *Report) {
 	descendingScanCoversZero(c, r, "C09.R2.opt-scan", "Msg.IsEdns0", "an OPT record that is the first additional record is not found: the reply is sized without it and the OPT is not retained")
 	packMapThreaded(c, r, "C09.R4.pack-map", "Truncate's size walk under-counts and the truncated reply exceeds the requested size")
 	borrow(c, r, c08LenForm, "C08.R1.len-form", "C09.R3.len-form", 70, "the length method of every type predicts what its packer writes (the size walk of Truncate relies on it)", nil, "Truncate's budget is short and the truncated reply exceeds the requested size")
+	bitmapLengthAgreement(c, r, "C09.R3.bitmap-length", "Truncate's size walk is short for such records and the truncated reply exceeds the requested size")
 }
 
 // edgeDominatesAny: one of the If's edges edge-dominates target.
